@@ -13,8 +13,10 @@ import Proofs.Hyperslab
 import Props.C03
 import Proofs.DmrDemo
 import Proofs.DapSrc
+import Proofs.Dap4E2E
+import Proofs.Dap4E2EDemo
 namespace Pydap.C10
-open Pydap Pydap.Dap4 Pydap.Dmr Pydap.Dap4Index
+open Pydap Pydap.Dap4 Pydap.Dmr Pydap.Dap4Index Pydap.E2E
 
 /-- the chunk-type field written by a conforming sender is read back flag for flag -/
 theorem C10_chunktype (last error little : Bool) :
@@ -80,9 +82,11 @@ theorem C10_response (little : Bool) (layoutsOf : Bytes → Except Dap4.Err (Lis
   unpackResponse_encode little layoutsOf dmr ss chunks hd hl hs hc hne hp
 
 /-- **Decode order = document order**: for every abstract DMR spec — groups nested to any depth, variables and
-    groups interleaved in any order (a variable declared after a sibling group included) — that is locally well
-    formed, whose `Dim` references resolve, and in which no two declarations (groups, variables; dimensions) share
-    a full path: the order in which `unpack_dap4_data` consumes the variables (`walk` order of the dataset tree
+    groups interleaved in any order (a variable declared after a sibling group included), names of variables and
+    groups any non-empty byte strings without `/` not starting with `dap4` (names that `_quote` changes included:
+    the `order` table is keyed by `_quote(key)`, the walked variables by their stored names) — that is locally
+    well formed, whose `Dim` references resolve, and in which no two declarations (groups, variables: stored,
+    i.e. quoted, full paths; dimensions) share a full path: the order in which `unpack_dap4_data` consumes the variables (`walk` order of the dataset tree
     assembled by `dmr_to_dataset`, groups created first, re-sorted by position in `get_variables`) is exactly
     the order in which the document declares them, and the variables met are exactly the declared ones with
     their declared types and shapes (`expectVars`, the right-hand side of `C11_parse`). -/
@@ -139,7 +143,7 @@ theorem C10_index_slices (idx : List Idx) (shape : List Nat) (h : NoEll idx) (hl
           (npExpand idx none shape.length) := by
   unfold proxy4Slices
   rw [fixSlice_noEll idx shape h hl]
-  exact combine_zipFix _ shape (npExpand_length_none idx _ hl)
+  exact Dap4Index.combine_zipFix _ shape (npExpand_length_none idx _ hl)
 
 /-- … and with one Ellipsis: the entries after it address the last axes -/
 theorem C10_index_slices_ellipsis (pre post : List Idx) (shape : List Nat) (h1 : NoEll pre) (h2 : NoEll post)
@@ -149,7 +153,7 @@ theorem C10_index_slices_ellipsis (pre post : List Idx) (shape : List Nat) (h1 :
           (npExpand pre (some post) shape.length) := by
   unfold proxy4Slices
   rw [fixSlice_ell pre post shape h1 h2 hl]
-  exact combine_zipFix _ shape (npExpand_length_some pre post _ hl)
+  exact Dap4Index.combine_zipFix _ shape (npExpand_length_some pre post _ hl)
 
 /-- **One axis, slice**: the slice requested for `x[s]` on an axis of extent `N` (bounds ≥ −N, step ≥ 1: numpy's
     domain for basic slices) selects exactly the positions numpy selects -/
@@ -184,6 +188,95 @@ theorem C10_index_request (id : List Char) (shape : List Nat) (idx : List Idx)
     ∧ parseHyperslab (hyperslabText (proxy4Slices shape idx)) = .ok (proxy4Slices shape idx) :=
   ⟨rfl, parseHyperslab_hyperslabText _ h⟩
 
+/-! ### indexing, end to end: request → selection → serialisation → chunks → decode → lookup
+
+  `fetchIndex4 tree itemsize server id shape idx` (PydapModel/Dap4E2E.lean) is `var[idx]` through
+  `BaseProxyDap4.__getitem__`: the request `proxy4Request`, the GET, `UNPACKDAP4DATA(r).dataset` (`unpackResponse` with
+  the variables in `decodeOrder` of the answer's DMR), `dataset[self.id].data` (`getitemPath`).  The server
+  `refServer4 little src dmrOf cut crc` is the specification side: it reads the request back with the **DAP4 branch of
+  `parse_ce`** (`parseCE4`, PydapModel/Dap4Ce.lean), slices the source with numpy (`npSlices`, values by `E2E.gather`),
+  serialises the selected values in the response byte order `little` followed by a checksum word, and sends the DMR of
+  the selection (`dmrOf`) as first chunk and the body cut into chunks by `cut`. -/
+
+/-- **the request is read back** by the DAP4 branch of `parse_ce` (and `parse_projection` with `;`) as exactly one
+    projection item — the proxy's id and the slices of `C10_index_slices` — and no selection clause -/
+theorem C10_parse_ce4_request (id : List Char) (shape : List Nat) (idx : List Idx) (hid : IdOk id)
+    (h : ∀ s ∈ proxy4Slices shape idx, NormSl s) :
+    parseCE4 (proxy4Request id shape idx) = .ok ([.path [(id, proxy4Slices shape idx)]], []) :=
+  parseCE4_request id _ hid h
+
+/-- the prefix guard of the DAP4 branch: a non-empty query that does not start with `dap4.ce=` is refused -/
+theorem C10_parse_ce4_guard (q : List Char) (h : q ≠ [] ∧ q.take 8 ≠ Handler.dap4Prefix) :
+    parseCE4 q = .error .ceError := by
+  unfold parseCE4; rw [if_pos h]
+
+/-- **End to end, index without Ellipsis** (short tuples included): for a source variable of any item size `width`
+    (1, 2, 4, 8: the ten numeric types, values as bit patterns `< 256 ^ width`), any rank, extents and values, in
+    the root or in groups `gpath` (names any `goodName`s; the id `var.path + "/" + var.name` free of
+    constraint-expression characters and of `%`), any index in numpy's domain (`ValidList`: ints in `[-N, N)`, slices
+    with bounds `≥ -N`, steps `≥ 1`, non-empty selections), **either byte order** and **any chunking** of the body
+    (`cut`: any function whose pieces concatenate to the body, at least one piece, each `< 2^24` bytes), the answer's
+    DMR declaring the selected variable with the selected extents (ElementTree, `tree`, trusted): the client obtains
+    exactly numpy's `source[idx]` — shape (integer axes kept with extent 1) and values. -/
+theorem C10_e2e_index (little : Bool) (src : Source) (idx : List Idx)
+    (tree : Bytes → XNode) (itemsize : VarRec → Nat) (dmrOf : List Nat → Bytes) (cut : Bytes → List Bytes)
+    (crc : List Nat → Nat) (pre : List (Str × Str)) (dsname : Str) (gpath : List Str) (tag name : Str)
+    (hlen : src.vals.length = Xdr.prod src.shape) (hval : ∀ v ∈ src.vals, v < 256 ^ src.width)
+    (hg : ∀ g ∈ gpath, goodName g) (ht : tag ∈ varTags) (hn : goodName name)
+    (hidv : src.id = walkKey (expectVar (gpath.map quoteName) (answerVar tag name [])))
+    (hid : IdOk src.id)
+    (h : NoEll idx) (hl : idx.length ≤ src.shape.length)
+    (hv : ValidList src.shape (padPre [] src.shape.length) (npExpand idx none src.shape.length))
+    (hcut : ∀ b, (cut b).flatten = b ∧ cut b ≠ [] ∧ ∀ c ∈ cut b, c.length < 2 ^ 24)
+    (hcrc : ∀ vs, crc vs < 256 ^ 4)
+    (htree : ∀ cs vs, numpyIndex src.shape src.vals (padPre [] src.shape.length)
+        (npExpand idx none src.shape.length) = some (cs, vs) →
+      tree (dmrOf cs) = renderRoot pre dsname (answerSpec gpath (answerVar tag name cs)))
+    (hdmr : ∀ cs vs, numpyIndex src.shape src.vals (padPre [] src.shape.length)
+        (npExpand idx none src.shape.length) = some (cs, vs) → (dmrOf cs).length < 2 ^ 24)
+    (hitem : ∀ cs, itemsize (expectVar (gpath.map quoteName) (answerVar tag name cs)) = src.width) :
+    ∃ cshape vs,
+      numpyIndex src.shape src.vals (padPre [] src.shape.length) (npExpand idx none src.shape.length)
+        = some (cshape, vs) ∧
+      fetchIndex4 tree itemsize (refServer4 little src dmrOf cut crc) src.id src.shape idx
+        = .ok (cshape.map Int.ofNat, vs) :=
+  fetchIndex4_spec little src idx _ tree itemsize dmrOf cut crc pre dsname gpath tag name hlen hval hg ht hn hidv hid
+    (fun cshape hc => by rw [fixSlice_noEll idx cshape h (by omega), hc]) hv hcut hcrc htree hdmr hitem
+
+/-- **… with one Ellipsis anywhere in the index** -/
+theorem C10_e2e_index_ellipsis (little : Bool) (src : Source) (a b : List Idx)
+    (tree : Bytes → XNode) (itemsize : VarRec → Nat) (dmrOf : List Nat → Bytes) (cut : Bytes → List Bytes)
+    (crc : List Nat → Nat) (pre : List (Str × Str)) (dsname : Str) (gpath : List Str) (tag name : Str)
+    (hlen : src.vals.length = Xdr.prod src.shape) (hval : ∀ v ∈ src.vals, v < 256 ^ src.width)
+    (hg : ∀ g ∈ gpath, goodName g) (ht : tag ∈ varTags) (hn : goodName name)
+    (hidv : src.id = walkKey (expectVar (gpath.map quoteName) (answerVar tag name [])))
+    (hid : IdOk src.id)
+    (ha : NoEll a) (hb : NoEll b) (hl : a.length + b.length ≤ src.shape.length)
+    (hv : ValidList src.shape (padPre [] src.shape.length) (npExpand a (some b) src.shape.length))
+    (hcut : ∀ b, (cut b).flatten = b ∧ cut b ≠ [] ∧ ∀ c ∈ cut b, c.length < 2 ^ 24)
+    (hcrc : ∀ vs, crc vs < 256 ^ 4)
+    (htree : ∀ cs vs, numpyIndex src.shape src.vals (padPre [] src.shape.length)
+        (npExpand a (some b) src.shape.length) = some (cs, vs) →
+      tree (dmrOf cs) = renderRoot pre dsname (answerSpec gpath (answerVar tag name cs)))
+    (hdmr : ∀ cs vs, numpyIndex src.shape src.vals (padPre [] src.shape.length)
+        (npExpand a (some b) src.shape.length) = some (cs, vs) → (dmrOf cs).length < 2 ^ 24)
+    (hitem : ∀ cs, itemsize (expectVar (gpath.map quoteName) (answerVar tag name cs)) = src.width) :
+    ∃ cshape vs,
+      numpyIndex src.shape src.vals (padPre [] src.shape.length) (npExpand a (some b) src.shape.length)
+        = some (cshape, vs) ∧
+      fetchIndex4 tree itemsize (refServer4 little src dmrOf cut crc) src.id src.shape (a ++ Idx.ell :: b)
+        = .ok (cshape.map Int.ofNat, vs) :=
+  fetchIndex4_spec little src _ _ tree itemsize dmrOf cut crc pre dsname gpath tag name hlen hval hg ht hn hidv hid
+    (fun cshape hc => by rw [fixSlice_ell a b cshape ha hb (by omega), hc]) hv hcut hcrc htree hdmr hitem
+
+/-- the selection really is numpy's: `numpyIndex` is per-axis `sel`/`selInt` positions and the row-major product
+    semantics (`C02_e2e_gather_is_numpy` proves the gather equal to it pointwise) — restated here for the values of
+    a DAP4 source: every returned value is the source value at the selected position -/
+theorem C10_e2e_values_are_source_values {α : Type} (shape : List Nat) (S : List (List Nat)) (vals : List α)
+    (hr : InRange shape S) (hl : vals.length = Xdr.prod shape) :
+    (gather shape S vals).map some = (cart S).map (fun ix => vals[ravel shape ix]?) :=
+  gather_spec shape S vals hr hl
+
 /-! ### non-vacuity -/
 
 set_option maxRecDepth 100000 in
@@ -195,6 +288,9 @@ example : unpackVars false [⟨2, 2⟩] (serialise false [⟨2, [1, 65535], 7⟩
 example : serialise true [⟨2, [1, 65535], 7⟩] = [1, 0, 255, 255, 7, 0, 0, 0] := by decide
 
 example : distinctNodes demo := by unfold distinctNodes; decide
+example : decodeOrder (renderRoot [] "ds".toList qdemo) = .ok (expectVars qdemo) :=
+  C10_decode_order [] _ _ qdemo_ok qdemo_refs (by unfold distinctNodes; decide)
+    (by unfold distinctDims; decide)
 example : decodeOrder (renderRoot [] "ds".toList demo) = .ok (expectVars demo) :=
   C10_decode_order [] _ _ demo_ok demo_refs (by unfold distinctNodes; decide)
     (by unfold distinctDims; decide)
@@ -221,6 +317,30 @@ example : ∀ s ∈ proxy4Slices [5] [Idx.sl ⟨some 1, some 4, some 2⟩], Norm
   rw [e] at hs
   exact ⟨1, 4, 2, by simpa using hs, by decide, by decide, by decide⟩
 example : selInt 5 (-2) = some 3 := by decide
+
+
+/-- the hypotheses of `C10_e2e_index` are satisfiable, and its conclusion on this case is `[20, 40]` of shape `[2]` -/
+example : fetchIndex4 demoTree (fun _ => 2) (refServer4 false demoSrc (fun _ => [60, 62]) demoCut (fun _ => 7))
+    demoSrc.id demoSrc.shape [Idx.sl ⟨some 1, some 4, some 2⟩] = .ok ([2], [20, 40]) := by
+  obtain ⟨cs, vs, h1, h2⟩ := C10_e2e_index false demoSrc [Idx.sl ⟨some 1, some 4, some 2⟩] demoTree (fun _ => 2)
+    (fun _ => [60, 62]) demoCut (fun _ => 7) [] "d".toList ["g".toList] "Int16".toList "v".toList
+    (by decide) (by decide)
+    (by intro g hg; simp at hg; subst hg; exact ⟨by decide, by decide, by decide, by decide⟩)
+    (by decide) ⟨by decide, by decide, by decide, by decide⟩ (by decide) ⟨by decide, by decide⟩
+    (by intro x hx; simp at hx; subst hx; trivial) (by decide) demo_valid
+    demoCut_ok (by intro _; decide)
+    (by intro cs vs h; rw [demo_numpy] at h; cases h; rfl)
+    (by intro cs vs _; decide) (by intro _; rfl)
+  rw [demo_numpy] at h1
+  cases h1
+  exact h2
+example : numpyIndex demoSrc.shape demoSrc.vals (padPre [] 1) (npExpand [Idx.sl ⟨some 1, some 4, some 2⟩] none 1)
+    = some ([2], [20, 40]) := by decide
+example : IdOk demoSrc.id := ⟨by decide, by decide⟩
+example : demoSrc.id = walkKey (expectVar (["g".toList].map quoteName) (answerVar "Int16".toList "v".toList [])) := by decide
+example : parseCE4 "dap4.ce=/g/v[1:2:3]".toList
+    = .ok ([.path [("/g/v".toList, [⟨some 1, some 4, some 2⟩])]], []) := by rfl
+example : parseCE4 "a[0]".toList = .error .ceError := by rfl
 
 /-! ### the tie by translation: the *source text* of the chunk-header decoding computes the model
 
